@@ -19,9 +19,9 @@ use std::sync::{Arc, Mutex};
 
 /// Simulated wall clock never goes below this (2001-09-09); user constants in generated
 /// expressions stay below it, so a clock value can be recognised in emitted text.
-pub const CLOCK_FLOOR: u64 = 1_000_000_000;
+pub const CLOCK_FLOOR: u64 = 1_000_000_007;
 /// Upper bound kept well inside i64 seconds.
-pub const CLOCK_CEIL: u64 = 1 << 40;
+pub const CLOCK_CEIL: u64 = (1 << 40) - 12_345;
 
 #[derive(Debug, Default)]
 pub struct EnvState {
@@ -240,11 +240,7 @@ unsafe fn sim_open(dirfd: c_long, path: *const std::os::raw::c_char, flags: c_in
     if !env.is_null() && !path.is_null() {
         let text = std::ffi::CStr::from_ptr(path).to_string_lossy().to_string();
         let mut st = (*env).lock().unwrap_or_else(|e| e.into_inner());
-        st.file_opens_total += 1;
-        let deny = crate::rng::mix(&[crate::rng::hash_str(&text), st.env_seed, st.env_epoch, 0xF11E]) % 2 == 0;
-        st.files_opened.insert(text);
-        if deny {
-            st.file_opens_denied += 1;
+        if !sim_exists(&mut st, &text) {
             *__errno_location() = ENOENT;
             return -1;
         }
@@ -277,6 +273,155 @@ pub unsafe extern "C" fn openat64(dirfd: c_int, path: *const std::os::raw::c_cha
     sim_open(dirfd as c_long, path, flags, mode)
 }
 
+fn sim_cwd(st: &EnvState) -> &'static str {
+    ["/sim/home/user", "/sim/scratch/job-17", "/"][(crate::rng::mix(&[0xCDu64, st.env_seed, st.env_epoch]) % 3) as usize]
+}
+
+/// Does `path` exist in the simulated file system of the current environment epoch? Decided per
+/// (path, epoch); all spellings of one path (./x, x, a//b) get the same answer.
+fn sim_exists(st: &mut EnvState, text: &str) -> bool {
+    st.file_opens_total += 1;
+    let canon = sim_canonical(st, text);
+    st.files_opened.insert(text.to_string());
+    let present = crate::rng::mix(&[crate::rng::hash_str(&canon), st.env_seed, st.env_epoch, 0xE715]) % 2 == 0;
+    if !present {
+        st.file_opens_denied += 1;
+    }
+    present
+}
+
+/// Lexical canonical form against the simulated working directory.
+fn sim_canonical(st: &EnvState, text: &str) -> String {
+    let joined = if text.starts_with('/') { text.to_string() } else { format!("{}/{}", sim_cwd(st), text) };
+    let mut parts: Vec<&str> = vec![];
+    for comp in joined.split('/') {
+        match comp {
+            "" | "." => {}
+            ".." => {
+                parts.pop();
+            }
+            c => parts.push(c),
+        }
+    }
+    format!("/{}", parts.join("/"))
+}
+
+unsafe fn sim_path_query(path: *const std::os::raw::c_char) -> Option<(bool, String)> {
+    let env = active();
+    if env.is_null() || path.is_null() {
+        return None;
+    }
+    let text = std::ffi::CStr::from_ptr(path).to_string_lossy().to_string();
+    let mut st = (*env).lock().unwrap_or_else(|e| e.into_inner());
+    let present = sim_exists(&mut st, &text);
+    let canon = sim_canonical(&st, &text);
+    Some((present, canon))
+}
+
+/// `realpath` (behind `std::fs::canonicalize`): for simulated caller threads a path exists in
+/// some environment epochs and not in others; when it exists its canonical form is computed
+/// lexically against the simulated working directory.
+#[no_mangle]
+pub unsafe extern "C" fn realpath(path: *const std::os::raw::c_char, resolved: *mut std::os::raw::c_char) -> *mut std::os::raw::c_char {
+    extern "C" {
+        fn malloc(n: usize) -> *mut c_void;
+    }
+    let (present, canon) = match sim_path_query(path) {
+        Some(r) => r,
+        None => {
+            // not a simulated thread: resolve lexically against the real working directory
+            if path.is_null() {
+                *__errno_location() = 22;
+                return std::ptr::null_mut();
+            }
+            let text = std::ffi::CStr::from_ptr(path).to_string_lossy().to_string();
+            let mut buf = [0u8; 4096];
+            let cwd = if syscall(79, buf.as_mut_ptr(), 4096 as c_long) > 0 {
+                std::ffi::CStr::from_ptr(buf.as_ptr() as *const std::os::raw::c_char).to_string_lossy().to_string()
+            } else {
+                "/".to_string()
+            };
+            let joined = if text.starts_with('/') { text } else { format!("{cwd}/{text}") };
+            let mut parts: Vec<&str> = vec![];
+            for comp in joined.split('/') {
+                match comp {
+                    "" | "." => {}
+                    ".." => {
+                        parts.pop();
+                    }
+                    c => parts.push(c),
+                }
+            }
+            (true, format!("/{}", parts.join("/")))
+        }
+    };
+    if !present {
+        *__errno_location() = ENOENT;
+        return std::ptr::null_mut();
+    }
+    let bytes = canon.as_bytes();
+    let out = if resolved.is_null() { malloc(bytes.len() + 1) as *mut u8 } else { resolved as *mut u8 };
+    if out.is_null() {
+        *__errno_location() = 12;
+        return std::ptr::null_mut();
+    }
+    std::ptr::copy_nonoverlapping(bytes.as_ptr(), out, bytes.len());
+    *out.add(bytes.len()) = 0;
+    out as *mut std::os::raw::c_char
+}
+
+/// `access` / `faccessat` (existence checks): same simulated file system.
+#[no_mangle]
+pub unsafe extern "C" fn access(path: *const std::os::raw::c_char, mode: c_int) -> c_int {
+    match sim_path_query(path) {
+        Some((true, _)) => 0,
+        Some((false, _)) => {
+            *__errno_location() = ENOENT;
+            -1
+        }
+        None => {
+            let r = syscall(21, path, mode as c_long);
+            if r < 0 {
+                *__errno_location() = (-r) as c_int;
+                -1
+            } else {
+                0
+            }
+        }
+    }
+}
+
+/// `statx` (behind `std::fs::metadata`, `Path::exists`, `Path::is_file`): a path that exists in
+/// this epoch is reported as a small regular file.
+#[no_mangle]
+pub unsafe extern "C" fn statx(dirfd: c_int, path: *const std::os::raw::c_char, flags: c_int, mask: c_uint, buf: *mut u8) -> c_int {
+    match sim_path_query(path) {
+        Some((true, _)) if !buf.is_null() => {
+            std::ptr::write_bytes(buf, 0, 256);
+            // struct statx: stx_mask u32 @0, stx_blksize u32 @4, stx_nlink u32 @16, stx_mode u16 @28, stx_size u64 @40
+            *(buf as *mut u32) = 0x7ff;
+            *(buf.add(4) as *mut u32) = 4096;
+            *(buf.add(16) as *mut u32) = 1;
+            *(buf.add(28) as *mut u16) = 0o100644;
+            *(buf.add(40) as *mut u64) = 42;
+            0
+        }
+        Some(_) => {
+            *__errno_location() = ENOENT;
+            -1
+        }
+        None => {
+            let r = syscall(332, dirfd as c_long, path, flags as c_long, mask as c_long, buf);
+            if r < 0 {
+                *__errno_location() = (-r) as c_int;
+                -1
+            } else {
+                0
+            }
+        }
+    }
+}
+
 /// The working directory (`std::env::current_dir`): for simulated caller threads one of three
 /// directories, chosen by the environment epoch (a change might make relative output file names
 /// absolute at compile time).
@@ -287,8 +432,8 @@ pub unsafe extern "C" fn getcwd(buf: *mut std::os::raw::c_char, size: usize) -> 
         let mut st = (*env).lock().unwrap_or_else(|e| e.into_inner());
         st.env_reads_total += 1;
         st.env_names.insert("<getcwd>".into());
-        let dirs: [&[u8]; 3] = [b"/sim/home/user\0", b"/sim/scratch/job-17\0", b"/\0"];
-        let d = dirs[(crate::rng::mix(&[0xCDu64, st.env_seed, st.env_epoch]) % 3) as usize];
+        let mut d = sim_cwd(&st).as_bytes().to_vec();
+        d.push(0);
         if d.len() > size {
             *__errno_location() = 34; // ERANGE
             return std::ptr::null_mut();
